@@ -99,6 +99,14 @@ def check(run):
         return nidx <= npath
     seqs = seqs + _gen.neighbours(seqs, run.rng, 60 if run.tier == "quick" else 600, valid=_wit_ok)      # purity across calls: L, near-duplicate of L, L again
     run.differential("codecs", seqs, shrink=False)
+    # ---- every byte-producing API call into a sink that takes a few bytes per `write()` call, and from readers that deliver a few
+    #      bytes per `read()`: the documented encoding must arrive complete (`write_all`, `read_to_end`), whatever the sink / source
+    io = []
+    for n in (1, 3, 100):
+        io.append(["rln new", "rln set_leaf 0x5 0x9", "rln set_leaf 0x1 0x7", "rln delete 0x1", f"rln chunk {hex(n)}", "rln empty", "rln get_proof 0x5",
+                   "rln root", "rln get_leaf 0x5", "rln seeded_key_gen 0a0b", "rln seeded_ext_key_gen 0a0b", "rln set_leaves_from 0x6 0x1,0x2,0x3", "rln empty",
+                   "rln atomic 0x9 0x4 -", "rln empty", "rln chunk 0x0", "rln empty"])
+    run.differential("api-partial-io", io, shrink=False)
     # ---- the documented identity layouts on EVERY entry point that writes one, also the unseeded ones (random output: the layout
     #      is checked through the relations its fields must satisfy IN THE DOCUMENTED ORDER):
     #      [ secret<32> | commitment<32> ] with commitment = H(secret); [ trapdoor | nullifier | secret | commitment ] with
